@@ -1038,7 +1038,7 @@ typename kll_sketch<T, C, A>::const_iterator& kll_sketch<T, C, A>::const_iterato
 }
 
 template<typename T, typename C, typename A>
-typename kll_sketch<T, C, A>::const_iterator& kll_sketch<T, C, A>::const_iterator::operator++(int) {
+typename kll_sketch<T, C, A>::const_iterator kll_sketch<T, C, A>::const_iterator::operator++(int) {
   const_iterator tmp(*this);
   operator++();
   return tmp;
